@@ -25,6 +25,9 @@ import traceback
 
 HERE = os.path.dirname(os.path.abspath(__file__))
 sys.path.insert(0, HERE)
+if os.environ.get('NETADDR_REPO'):
+    # development aid: run the checks against a scratch copy of netaddr (mutation self-tests)
+    sys.path.insert(0, os.environ['NETADDR_REPO'])
 import common
 from common import Case, VERIF, LEAN
 
